@@ -936,6 +936,233 @@ def two_case_from_json(o):
             'classic': bool(o.get('classic', False))}
 
 
+# ----------------------------------------------------------------------------- F: one central, several connections
+MY_CIDS = (FIXED_CID, 0x50, 0x7F)
+
+
+async def multi_device_scenario(cfg, budget=4000000):
+    """One central (device 0) connected to len(cfg['pgeom']) peripherals over LE: all connections
+    share the central's LE ACL queue (cfg['geom0'] = its controller's ACL length / count).
+    cfg['sends']: (peripheral index 1.., 'c2p'|'p2c', cid, pattern spec), all issued back to back;
+    then the loop is stepped until the central's host has handed cfg['cut'] ACL packets to its
+    controller, connection cfg['victim'] is disconnected by cfg['by'] ('central'|'peripheral'),
+    cfg['after'] PDUs are sent on surviving connections, and everything runs to idle."""
+    from bumble import hci
+    from bumble.controller import Controller
+    from bumble.device import Device
+    from bumble.host import Host
+    from bumble.link import LocalLink
+    from bumble.transport.common import AsyncPipeSink
+
+    loop = asyncio.get_running_loop()
+    loop_errors = []
+    loop.set_exception_handler(lambda l, ctx: loop_errors.append(type(ctx.get('exception')).__name__))
+    nper = len(cfg['pgeom'])
+    link = LocalLink()
+    addrs = [':'.join([f'F{i}'] * 6) for i in range(nper + 1)]
+    ctrls = [Controller(f'C{i}', link=link, public_address=addrs[i]) for i in range(nper + 1)]
+    for c, (m, n) in zip(ctrls, [cfg['geom0']] + list(cfg['pgeom'])):
+        c.le_acl_data_packet_length, c.total_num_le_acl_data_packets = m, n
+        c.acl_data_packet_length = m + 3 if m + 3 <= 65535 else m - 3
+        c.total_num_acl_data_packets = n + 1
+    devs = [Device(address=hci.Address(addrs[i]), host=Host(ctrls[i], AsyncPipeSink(ctrls[i]))) for i in range(nper + 1)]
+
+    async def setup():
+        for d in devs:
+            await d.power_on()
+        cc, pc = {}, {}
+        for i in range(1, nper + 1):
+            fut = loop.create_future()
+            devs[i].once('connection', fut.set_result)
+            await devs[i].start_advertising(advertising_interval_min=1.0)
+            cc[i] = await devs[0].connect(devs[i].random_address)
+            pc[i] = await fut
+        return cc, pc
+
+    task = asyncio.ensure_future(setup())
+    for _ in range(3000000):
+        if task.done():
+            break
+        await asyncio.sleep(0)
+    if not task.done():
+        task.cancel()
+        raise RuntimeError(f'multi-device set-up did not complete for {cfg}')
+    cc, pc = task.result()
+
+    tick = [0]
+    clock = [0]                       # order of observations
+    tx0 = []                          # ACL packets central host -> its controller
+    rx = {i: [] for i in range(1, nper + 1)}      # ACL packets controller i -> host i
+    ev = {i: [] for i in range(0, nper + 1)}      # (clock, handle, cid, payload) 'l2cap_pdu' at host i
+    disc = {i: [] for i in range(0, nper + 1)}    # (clock, handle) 'disconnection' at host i
+    devs[0].host.hci_sink = Spy(devs[0].host.hci_sink, tx0, tick)
+    ctrls[0].host = Spy(ctrls[0].host, [], tick)
+    for i in range(1, nper + 1):
+        devs[i].host.hci_sink = Spy(devs[i].host.hci_sink, [], tick)
+        ctrls[i].host = Spy(ctrls[i].host, rx[i], tick)
+
+    def on_pdu(i, h, cid, pdu):
+        clock[0] += 1
+        if cid in MY_CIDS:
+            ev[i].append([clock[0], h, cid, bytes(pdu)])
+
+    def on_disc(i, h, reason):
+        clock[0] += 1
+        disc[i].append([clock[0], h])
+    for i in range(0, nper + 1):
+        devs[i].host.on('l2cap_pdu', lambda h, cid, pdu, i=i: on_pdu(i, h, cid, pdu))
+        devs[i].host.on('disconnection', lambda h, reason, i=i: on_disc(i, h, reason))
+
+    for i, direction, cid, spec in cfg['sends']:
+        (cc if direction == 'c2p' else pc)[i].send_l2cap_pdu(cid, pat(*spec))
+    # the cut: wait until the central has handed over cfg['cut'] fragments
+    steps = 0
+    idle = 0
+    last = tick[0]
+    while len(tx0) < cfg['cut'] and idle < 64 and steps < budget:     # idle: the cut lies beyond the end of the drain
+        await asyncio.sleep(0)
+        steps += 1
+        if tick[0] != last:
+            last = tick[0]
+            idle = 0
+        else:
+            idle += 1
+    fragments_at_cut = len(tx0)
+    victim = cfg['victim']
+    disc_errors = []
+    if victim:
+        conn = cc[victim] if cfg['by'] == 'central' else pc[victim]
+        t = asyncio.ensure_future(conn.disconnect())
+        t.add_done_callback(lambda f: disc_errors.append(type(f.exception()).__name__) if f.exception() else None)
+    for i, cid, spec in cfg['after']:
+        cc[i].send_l2cap_pdu(cid, pat(*spec))
+    idle = 0
+    last = tick[0]
+    hang = False
+    while idle < 64:
+        await asyncio.sleep(0)
+        steps += 1
+        if tick[0] != last:
+            last = tick[0]
+            idle = 0
+        else:
+            idle += 1
+        if steps > budget:
+            hang = True
+            break
+    return {'chandles': {i: cc[i].handle for i in cc}, 'phandles': {i: pc[i].handle for i in pc},
+            'tx0': tx0, 'rx': rx, 'ev': ev, 'disc': disc, 'hang': hang, 'fragments_at_cut': fragments_at_cut,
+            'loop_errors': sorted(set(loop_errors)), 'disc_errors': disc_errors}
+
+
+def run_multi(cfg):
+    return asyncio.run(multi_device_scenario(cfg))
+
+
+def multi_oracle(cfg, res):
+    """Every PDU sent on a surviving connection arrives byte-identical, once, in order; on the
+    disconnected connection what arrives is an intact prefix and nothing arrives after the
+    disconnection was reported; the central's fragments for surviving connections fit and are flagged."""
+    if res['hang']:
+        return 'hang', 'the run did not become idle within its step budget'
+    nper = len(cfg['pgeom'])
+    victim = cfg['victim']
+    tag = f"central {cfg['geom0']}, {nper} connections, disconnect {victim} by {cfg['by']} after {res['fragments_at_cut']} fragments"
+    tx_by_handle = {}
+    for f in parse_acl(res['tx0']):
+        tx_by_handle.setdefault(f[0], []).append(f)
+    for i in range(1, nper + 1):
+        c2p = [(cid, spec) for (j, d, cid, spec) in cfg['sends'] if j == i and d == 'c2p'] + \
+              [(cid, spec) for (j, cid, spec) in cfg['after'] if j == i]
+        p2c = [(cid, spec) for (j, d, cid, spec) in cfg['sends'] if j == i and d == 'p2c']
+        for direction, sent, host_i, handle in (('central->%d' % i, c2p, i, res['phandles'][i]),
+                                                ('%d->central' % i, p2c, 0, res['chandles'][i])):
+            want = [[cid, pat(*spec)] for cid, spec in sent]
+            got = [[e[2], e[3]] for e in res['ev'][host_i] if e[1] == handle]
+            if i != victim:
+                if got != want:
+                    for k, w in enumerate(want):
+                        if k >= len(got) or got[k] != w:
+                            what = 'lost' if len(got) < len(want) else \
+                                ('scrambled (right length, wrong bytes)' if len(got[k][1]) == len(w[1]) else 'corrupted')
+                            return (f'survivor:{what.split(" ")[0]}',
+                                    f'{tag}: {direction}: PDU {k} with {len(w[1])} payload bytes {what} '
+                                    f'({len(got)} of {len(want)} PDUs arrived)')
+                    return 'survivor:extra', f'{tag}: {direction}: {len(got)} PDUs arrived, {len(want)} sent'
+            else:
+                if got != want[:len(got)]:
+                    return 'victim:corrupt', f'{tag}: {direction}: what arrived on the disconnected connection is not an intact prefix of what was sent'
+                reported = [t for (t, h) in res['disc'][host_i] if h == handle]
+                late = [e for e in res['ev'][host_i] if e[1] == handle and reported and e[0] > reported[0]]
+                if late:
+                    return 'victim:late', f'{tag}: {direction}: {len(late)} PDU(s) arrived after the disconnection was reported'
+        if i != victim:
+            bad = frag_oracle(cfg['geom0'][0], res['chandles'][i], c2p, tx_by_handle.get(res['chandles'][i], []))
+            if bad:
+                return 'fragment', f'{tag}: central fragments for connection {i}: {bad}'
+    return None
+
+
+def gen_multi_config(rng):
+    nper = rng.choice([2, 2, 2, 3])
+    m0 = rng.choice([5, 8, 16, 27, 27, 64])
+    n0 = rng.choice([1, 1, 2, 3, 4])
+    pgeom = [(rng.choice([7, 16, 27, 64, 251]), rng.choice([1, 2, 8])) for _ in range(nper)]
+    victim = rng.range(1, nper)
+    sends = []
+    # a survivor gets a PDU with more fragments than the controller has buffers (backlog), the
+    # victim has fragments queued behind / in between, in every order
+    order = rng.shuffle(list(range(1, nper + 1)) + [victim] + [rng.range(1, nper)])
+    for i in order:
+        if i == victim:
+            L = rng.choice([0, 1, m0 - 4, 2 * m0, 3 * m0 + 1, rng.range(0, 4 * m0)])
+        else:
+            L = max(0, rng.choice([(n0 + 2) * m0, (n0 + 5) * m0 + 1, (n0 + 9) * m0 - 5, rng.range(n0 * m0, (n0 + 12) * m0)]) - 4)
+        sends.append((i, 'c2p', rng.choice(MY_CIDS), (L, rng.range(1, 255), rng.range(0, 255))))
+    for i in range(1, nper + 1):
+        if rng.chance(1, 2):
+            sends.append((i, 'p2c', rng.choice(MY_CIDS), (rng.range(0, 3 * pgeom[i - 1][0]), rng.range(1, 255), rng.range(0, 255))))
+    after = [(i, rng.choice(MY_CIDS), (rng.choice([0, 1, m0, 3 * m0 - 4, 40]), rng.range(1, 255), rng.range(0, 255)))
+             for i in range(1, nper + 1) if i != victim and rng.chance(2, 3)]
+    total = sum(-(-(spec[0] + 4) // m0) for (_, d, _, spec) in sends if d == 'c2p')
+    return {'geom0': (m0, n0), 'pgeom': pgeom, 'sends': sends, 'victim': victim,
+            'by': rng.choice(['central', 'central', 'peripheral']), 'after': after, 'cut': 0}, total
+
+
+def multi_cuts(total, limit, rng):
+    """the points of the drain at which the disconnection is triggered: all of them when few, else
+    the ends, an even spread and a random one"""
+    if total + 1 <= limit:
+        return list(range(0, total + 1))
+    picks = {0, 1, 2, total - 1, total, rng.range(0, total)}
+    step = total / (limit - len(picks) + 1)
+    k = step
+    while len(picks) < limit and k < total:
+        picks.add(int(k))
+        k += step
+    return sorted(picks)
+
+
+def multi_to_json(cfg):
+    return {'kind': 'multi', 'geom0': list(cfg['geom0']), 'pgeom': [list(g) for g in cfg['pgeom']],
+            'sends': [[i, d, cid, list(s)] for i, d, cid, s in cfg['sends']], 'victim': cfg['victim'], 'by': cfg['by'],
+            'after': [[i, cid, list(s)] for i, cid, s in cfg['after']], 'cut': cfg['cut']}
+
+
+def multi_from_json(o):
+    return {'geom0': tuple(o['geom0']), 'pgeom': [tuple(g) for g in o['pgeom']],
+            'sends': [(s[0], s[1], s[2], tuple(s[3])) for s in o['sends']], 'victim': o['victim'], 'by': o['by'],
+            'after': [(a[0], a[1], tuple(a[2])) for a in o['after']], 'cut': o['cut']}
+
+
+def multi_expr(cfg, res, i):
+    """model of the surviving connection i, central -> peripheral i"""
+    mine = [(cid, spec) for (j, d, cid, spec) in cfg['sends'] if j == i and d == 'c2p'] + \
+           [(cid, spec) for (j, cid, spec) in cfg['after'] if j == i]
+    geom = [cfg['geom0'], cfg['pgeom'][i - 1]]
+    return two_expr(geom, [(0, cid, spec) for cid, spec in mine], [res['chandles'][i], res['phandles'][i]], 0)
+
+
 # ----------------------------------------------------------------------------- run
 def check_two(ctx, c, label, evaluate_model=True):
     geom, sends = c['geom'], c['sends']
@@ -1132,6 +1359,26 @@ def run(ctx):
             else:
                 c['idx'].append(batch.add(two_expr(c['geom'], c['sends'], res['handles'], d), cost=1 + cost // 100000))
 
+    # ---------------- F: one central, several connections sharing its ACL queue, a disconnection at every
+    # point of the drain
+    ctx.log('F: shared queue, disconnection during the drain')
+    multi_cases = [multi_from_json(o['replay']) for o in load_corpus() if o.get('replay', {}).get('kind') == 'multi']
+    for _ in range(ctx.n(5, 60)):
+        cfg, total = gen_multi_config(rng)
+        for cut in multi_cuts(total, 8 if ctx.quick() else 14, rng):
+            multi_cases.append(dict(cfg, cut=cut))
+    multi_runs = []
+    for cfg in multi_cases:
+        res = run_multi(cfg)
+        bad = multi_oracle(cfg, res)
+        if bad:
+            ctx.violation(f'multi:{bad[0]}', bad[1], multi_to_json(cfg))
+        idx = {}
+        for i in range(1, len(cfg['pgeom']) + 1):
+            if i != cfg['victim']:
+                idx[i] = batch.add(multi_expr(cfg, res, i))
+        multi_runs.append((res, idx))
+
     # ================= phase 2: the model, once
     ctx.log(f'evaluating {len(batch.items)} model expressions')
     model = batch.evaluate(ctx)
@@ -1308,6 +1555,28 @@ def run(ctx):
                              repr([x if x is None else x[:6] for x in mm])[:900],
                              repr([itx[:6], irx[:6], iev[:6]])[:900])
 
+    for cfg, (res, idx) in zip(multi_cases, multi_runs):
+        ctx.case(('multi', cfg['geom0'], cfg['pgeom'], cfg['sends'], cfg['victim'], cfg['by'], cfg['after'], cfg['cut']),
+                 True, multi_to_json(cfg) if cfg['cut'] == 1 else None)
+        ctx.count('F.scenarios')
+        ctx.count('F.by_' + cfg['by'])
+        ctx.count('F.cut_inside_drain' if 0 < res['fragments_at_cut'] else 'F.cut_at_start')
+        ctx.count('F.connections', len(cfg['pgeom']))
+        tx_by_handle = {}
+        for f in parse_acl(res['tx0']):
+            tx_by_handle.setdefault(f[0], []).append(f)
+        for i, k in idx.items():
+            mtx, mmid, mrx = model[k]
+            itx = [acl_sum(f) for f in tx_by_handle.get(res['chandles'][i], [])]
+            irx = [acl_sum(f) for f in parse_acl(res['rx'][i])]
+            iev = [[e[2], len(e[3]), digest(e[3])] for e in res['ev'][i] if e[1] == res['phandles'][i]]
+            mm = [norm(opt(mtx)), norm(opt(mmid)), norm(opt(mrx))]
+            if mm != [itx, irx, iev]:
+                which = 'central host->controller packets' if mm[0] != itx else \
+                    'controller->host packets' if mm[1] != irx else "'l2cap_pdu' events"
+                ctx.disagree(f'shared queue, surviving connection {i}: {which}', multi_to_json(cfg),
+                             repr([x if x is None else x[:6] for x in mm])[:900], repr([itx[:6], irx[:6], iev[:6]])[:900])
+
 
 # ----------------------------------------------------------------------------- search / replay
 def search(ctx):
@@ -1343,6 +1612,14 @@ def search(ctx):
             ctx.violation(f'search:asm:scope:{bad[0]}:' + '-'.join(seq), f'assembler fed {"-".join(seq)}: {bad[1]}',
                           asm_replay_obj(pk, False, 1, 0))
             return
+    for _ in range(12):
+        cfg, total = gen_multi_config(rng)
+        for cut in multi_cuts(total, 10, rng):
+            c = dict(cfg, cut=cut)
+            bad = multi_oracle(c, run_multi(c))
+            if bad:
+                ctx.violation(f'search:multi:{bad[0]}', bad[1], multi_to_json(c))
+                return
     for k in range(40):
         c = gen_two_case(rng, big=(k % 4 == 0))
         check_two(ctx, c, k)
@@ -1382,6 +1659,17 @@ def replay(ctx, obj):
                   'host fragments', len(res['tx'][d]), 'controller->host fragments', len(res['rx'][1 - d]))
         print('event loop errors:', res['loop_errors'])
         bad = two_oracle(c['geom'], c['sends'], res)
+        print('oracle:', bad[1] if bad else 'holds')
+        return 1 if bad else 0
+    if kind == 'multi':
+        cfg = multi_from_json(r)
+        res = run_multi(cfg)
+        for i in range(1, len(cfg['pgeom']) + 1):
+            sent = [s[0] for (j, d, _, s) in cfg['sends'] if j == i and d == 'c2p'] + [s[0] for (j, _, s) in cfg['after'] if j == i]
+            print(f"connection {i}{' (disconnected)' if i == cfg['victim'] else ''}: central sent {sent}, arrived",
+                  [len(e[3]) for e in res['ev'][i] if e[1] == res['phandles'][i]])
+        print('fragments handed over before the disconnection:', res['fragments_at_cut'], 'event loop errors:', res['loop_errors'])
+        bad = multi_oracle(cfg, res)
         print('oracle:', bad[1] if bad else 'holds')
         return 1 if bad else 0
     if kind == 'host_tx':
